@@ -603,6 +603,38 @@ def main():
                     t.insert(S.sigs[i])
                 t.save(S.path)
                 res = "ok refused="
+            elif op == "sbtresave":
+                from sourmash.sbtmh import load_sbt_index
+                src, dst = a[0], a[1]
+                ids, extra = parse_sessions(a[2])[0], parse_sessions(a[3])[0]
+                if any(i not in S.sigs for i in ids + extra):
+                    res = "bad-op"
+                else:
+                    d = S.fresh()
+                    S.new_collection()
+                    S.kind = None
+                    os.makedirs(d + "/A")
+                    os.makedirs(d + "/B")
+                    src_path = d + ("/A/c.sbt.json" if src == "json" else "/A/c.sbt.zip")
+                    t = create_sbt_index()
+                    for i in ids:
+                        t.insert(S.sigs[i])
+                    t.save(src_path)
+                    t2 = load_sbt_index(src_path) if S.next_route(2) else sourmash.load_file_as_index(src_path)
+                    for i in extra:
+                        t2.insert(S.sigs[i])
+                    target = {"samename": d + "/B/c.sbt.json", "othername": d + "/A/d.sbt.json",
+                              "otherdir": d + "/B/d.sbt.json", "zip": d + "/B/c.sbt.zip"}[dst]
+                    t2.save(target)
+                    del t2, t
+                    # the copy must be self-contained: remove the source
+                    if src == "json":
+                        os.unlink(src_path)
+                        shutil.rmtree(d + "/A/.sbt.c", ignore_errors=True)
+                    else:
+                        os.unlink(src_path)
+                    S.kind, S.path = ("sbt" if dst == "zip" else "sbtjson"), target
+                    res = "ok refused="
             elif op == "lcasql":
                 ksize, mol, scaled, maxhash = [int(x) for x in a[:4]]
                 d = S.fresh()
@@ -875,7 +907,7 @@ def main():
                 elif S.kind == "dir":
                     res = "ok~ " + ";".join(show_member(n) for n in os.listdir(S.path))
                 elif S.kind == "sbtjson":
-                    sub = os.path.join(os.path.dirname(S.path), ".sbt.c")
+                    sub = os.path.join(os.path.dirname(S.path), ".sbt." + os.path.basename(S.path)[:-len(".sbt.json")])
                     res = "ok~ " + ";".join(show_member(n) for n in os.listdir(sub)
                                             if not n.startswith("internal.") and not n.endswith(".csv"))
                 else:
